@@ -7,7 +7,7 @@ UNIT = dict(
   items=[
     ('laythe_vm/src/fiber/exception_handler.rs', ['struct ExceptionHandler', ('impl ExceptionHandler', None)]),
     ('laythe_vm/src/fiber/mod.rs', ['enum FiberState', 'enum UnwindResult',
-      ('impl Fiber', ['exception_handler', 'stack_unwind', 'pause_unwind', 'finish_unwind', 'pop_exception_handler', 'push_exception_handler', 'error_while_handling', 'activate', 'frames', 'frame_count'])]),
+      ('impl Fiber', ['exception_handler', 'stack_unwind', 'pause_unwind', 'finish_unwind', 'pop_exception_handler', 'push_exception_handler', 'error_while_handling', 'activate', 'frames', 'frame_count', 'print_error'])]),
   ],
   rewrites=[
     ('R7f', 'struct ExceptionHandler'),
@@ -51,6 +51,18 @@ UNIT = dict(
     ('R9', 'Fiber::pause_unwind', dict(
        pat=r'let temp: Vec<\*const u8> = self\s*\.frames\(\)\s*\.iter\(\)\s*\.rev\(\)\s*\.map\(\|frame\| frame\.ip\(\)\)\s*\.collect\(\);\s*self\.backtrace_ips\.extend\(context\.gc\(\), context, &temp\);',
        rep=r'self.verif_collect_ips_skip_take(0, usize::MAX);', regex=True, optional=True)),
+    # ---- print_error (C18): which instruction pointer each traceback line is computed from. The text output (writeln! / format! / get_line /
+    # raw offset_from) is one stub per frame that receives the frame and the chosen ip; the header and the final message line are dropped (text).
+    ('R6', 'Fiber::print_error', dict(pat='pub fn print_error(&self, log: &mut dyn Write, error: Instance) {', rep='pub fn print_error(&self, log: &mut TraceOut) {', count=1)),
+    ('R8', 'Fiber::print_error', dict(pat=r'writeln!\(log, "Traceback \(most recent call last\):"\)\.expect\("[^"]*"\);', rep='', regex=True, count=1)),
+    ('R8', 'Fiber::print_error', dict(pat=r'let message = error\[0\]\.to_obj\(\)\.to_str\(\);\s*writeln!\(log, "\{\}: \{\}", &\*error\.class\(\)\.name\(\), &\*message\)\.expect\("[^"]*"\);', rep='', regex=True, count=1)),
+    ('R8', 'Fiber::print_error', dict(pat=r'let fun = frame\.fun\(\);\s*let location: String = match &\*fun\.name\(\) \{\s*SCRIPT => SCRIPT\.to_owned\(\),\s*_ => format!\("\{\}\(\)", &\*fun\.name\(\)\),\s*\};', rep='', regex=True, count=1)),
+    ('R8', 'Fiber::print_error', dict(pat=r'let offset = unsafe \{ ([\w.()]+)\.offset_from\(fun\.chunk\(\)\.instructions\(\)\.as_ptr\(\)\) \} as usize;\s*writeln!\(\s*log,\s*"  \{\}:\{\} in \{\}",\s*fun\.module\(\)\.path\(\),\s*fun\.chunk\(\)\.get_line\(offset\.saturating_sub\(1\)\),\s*location\s*\)\s*\.expect\("[^"]*"\);',
+                                       rep=r'log.verif_frame_line(frame, \1);', regex=True, count=1)),
+    # the frame loop: `for frame in frames.iter().rev()` / `for (index, frame) in frames.iter().rev().enumerate()` -> index loop, innermost first
+    ('R13', 'Fiber::print_error', dict(pat=r'for \(index, frame\) in self\.frames\.iter\(\)\.rev\(\)\.enumerate\(\) \{', rep='let mut index: usize = 0;\n    while index < self.frames.len() {\n      let frame = &self.frames[self.frames.len() - 1 - index];', regex=True, optional=True)),
+    ('R13', 'Fiber::print_error', dict(pat=r'for frame in self\.frames\.iter\(\)\.rev\(\) \{', rep='let mut index: usize = 0;\n    while index < self.frames.len() {\n      let frame = &self.frames[self.frames.len() - 1 - index];', regex=True, optional=True)),
+    ('R13', 'Fiber::print_error', dict(pat=r'(log\.verif_frame_line\([^;]*;)', rep=r'\1\n      index += 1;', regex=True, count=1)),
     ('R9', 'Fiber::finish_unwind', dict(pat='let backtrace = self.error_backtrace(&handler);', rep='let backtrace = self.verif_error_backtrace(&handler);', count=1)),
     ('R4', 'Fiber::exception_handler', dict(pat='self.exception_handlers.last().copied()', rep='match self.exception_handlers.last() { Some(verif_h) => Some(*verif_h), None => None }', count=1)),
     ('R3', 'Fiber::pop_exception_handler', dict(pat=r'assert!\(\s*self\.exception_handlers\.pop\(\)\.is_some\(\),\s*"[^"]*"\s*\);', rep='let verif_p = self.exception_handlers.pop(); assert!(verif_p.is_some());', regex=True, count=1)),
